@@ -92,7 +92,20 @@ class C09(PropBase):
             lines.insert(pos, G.long_line(rng, 163840 + rng.choice([0, 1, 2, 100, 5000, 200000, 900000])))
             data = G.join(rng, lines, final_nl=(pos != len(lines) - 1) or rng.chance(1, 2))
             add("dropped", data, G.sched_random(rng, len(data), style=rng.choice([0, 0, 1, 2, 5])), tag="drop")
+        # 7. over-long line, then a few short lines and an unterminated fragment; large reads, so that the end of the
+        #    over-long line and all the rest arrive in one read (recovery ends and EOF follows at once)
+        for i in range(80 if quick else 600):
+            lines = G.gen_lines(rng, rng.below(5))
+            lines.append(G.long_line(rng, 163840 + rng.choice([0, 1, 7, 100, 5000, 170000])))
+            lines += G.gen_lines(rng, rng.below(3))[1:]
+            lines.append(rng.choice([b"FILE 9 x", b"FUNC 1 1 0", b"x", b"STACK CFI INIT 1 1 .cfa: $esp", b"PUBLIC 1 0 abc", b"\r"]))
+            data = G.join(rng, lines, final_nl=False)
+            add("drop-trunc", data, rng.choice([[], [], ["163840*40"], ["200000*40"], ["81920*40"], G.sched_random(rng, len(data), style=2)]))
         return cases, dist, False
+
+    def impl_cmd(self, exe, profile):
+        # no case takes more than a second or two even in the debug build: a hang is reported after 15 s
+        return ["env", "VHARNESS_CASE_TIMEOUT=15", exe]
 
     def oracle(self, case, ans, profile):
         if ans.startswith("P;;"):
